@@ -264,6 +264,31 @@ class C32(core.Check):
             mk(1, None, [316, 196], [[3, 3, 3, 3], [3, 0, 0, 0], [3, 0, 3, 0], [3, 0, 0, 0]], [319, 199], 2, 3,
                kind='walled'),
         ]
+        ring = [[0, 0, 0], [0, 1, 0], [0, 0, 0]]
+        stripes = [[0] * 9 for _ in range(6)]
+        stripes[2][4] = 3
+        t = lambda **kw: dict(self.mk(kw.pop('scr', 1), kw.pop('view', [10, 10, 18, 15, 0]), kw.pop('rect', [10, 10]),
+                                      kw.pop('rows', stripes), kw.pop('seed', [0, 0]), None, kw.pop('b', 3),
+                                      kind='view'), **kw)
+        cases += [
+            t(tile=[0x55, 0xAA]), t(tile=[0xFF]), t(tile=[0x1B, 0xE4, 0xFF], b=None),
+            t(tile=[0x55, 0xAA], bgp=[0x55]), t(tile=[0x55, 0x55, 0x55], bgp=[0x55]),      # the last one: IFC
+            t(tile=[0x55, 0x00, 0xAA]),                                                      # isolated zero row
+            t(scr=7, tile=[0xFF, 0x00, 0xFF, 0x00, 0x0F, 0xF0, 0x33, 0xCC], b=2),
+            t(scr=9, tile=[0xAA, 0x55, 0xAA], b=2, bgp=[0xAA, 0x55, 0xAA, 0x00]),
+            t(scr=2, tile=[0xCC, 0x33], b=1, rows=[[min(1, a) for a in r] for r in stripes]),
+            # K32a: ring around a border pixel, all-zero tile: never terminates
+            t(view=[20, 21, 22, 23, 0], rect=[20, 21], rows=ring, tile=[0], b=1),
+            # STEP and WINDOW coordinates
+            dict(self.mk(1, [10, 10, 18, 15, 0], [10, 10], stripes, [0, 0], 2, 3, kind='view'),
+                 coord={'kind': 'step', 'd': [-2, 1]}),
+            dict(self.mk(1, [10, 10, 18, 15, 1], [10, 10], stripes, [0, 0], 2, 3, kind='viewscreen'),
+                 coord={'kind': 'step', 'd': [3, -2]}),
+            dict(self.mk(1, [10, 10, 18, 15, 0], [10, 10], stripes, [0, 0], 2, 3, kind='view'),
+                 coord={'kind': 'window', 'w': [0, 0, 100, 100, 0], 'f': [50, 50]}),
+            dict(self.mk(1, [10, 10, 18, 15, 0], [10, 10], stripes, [0, 0], 2, 3, kind='view'),
+                 coord={'kind': 'window', 'w': [-10, -10, 10, 10, 1], 'f': [-10, 9]}),
+        ]
         # full screen without VIEW: a box with a gap, a bar already in the fill colour, seed inside the box
         cases.append({'scr': 1, 'view': None, 'rect': [0, 0], 'rows': [[0]],
                       'rects': [[40, 30, 100, 1, 3], [40, 90, 100, 1, 3], [40, 30, 1, 61, 3], [139, 30, 1, 61, 3],
@@ -411,7 +436,44 @@ class C32(core.Check):
             else:
                 seed = rng.choice([[32768, 0], [0, -32769], [32767, 32767], [-32768, -32768], [70000, 70000]])
                 bump('seed', 'overflow')
-            out.append(self.mk(scr, view, rect, rows, seed, c, b, fg=fg, kind=kind, pic=pname))
+            case = self.mk(scr, view, rect, rows, seed, c, b, fg=fg, kind=kind, pic=pname)
+            r = rng.random()
+            if r < 0.3:
+                # tile pattern (string) instead of a colour, sometimes with a background pattern
+                planes = 4 if scr in (7, 9) else 1
+                nrows = rng.choice([1, 1, 2, 2, 3, 4, 5, 8])
+                pool = [0x55, 0xAA, 0xFF, 0x33, 0xCC, 0x0F, 0xF0, 0x1B, 0xE4]
+                tb = []
+                for _ in range(nrows):
+                    q = rng.random()
+                    if q < 0.06:
+                        tb += [0] * planes                                   # an all-zero tile row
+                    else:
+                        tb += [rng.choice(pool) if rng.random() < 0.7 else rng.randrange(256) for _ in range(planes)]
+                if planes == 4 and rng.random() < 0.2:
+                    tb = tb[:-rng.randrange(1, 4)] or tb                     # length not a multiple of 4: padded
+                case['tile'] = tb
+                case['c'] = None
+                if case['b'] is not None and not 0 <= case['b'] <= 255 and rng.random() < 0.7:
+                    case['b'] = rng.randrange(na)
+                q = rng.random()
+                if q < 0.15:
+                    case['bgp'] = tb[:planes] if rng.random() < 0.5 else tb[-planes:]   # equals a tile row
+                elif q < 0.3:
+                    case['bgp'] = [rng.choice(pool + [0]) for _ in range(rng.choice([planes, planes, 1, 2 * planes]))]
+                bump('attrs', 'tile' + ('+bg' if case.get('bgp') is not None else ''))
+            elif r < 0.4 and kind != 'walled' and seed[0] == int(seed[0]):
+                if rng.random() < 0.5:
+                    case['coord'] = {'kind': 'step', 'd': [rng.randrange(-w, w + 1), rng.randrange(-h, h + 1)]}
+                else:
+                    a0, b0 = rng.choice([0, -10, 5, -100]), rng.choice([0, -10, 7, 50])
+                    a1, b1 = a0 + rng.choice([1, 10, 100, 320, w - 1, -50]), b0 + rng.choice([1, 10, 100, 200, h - 1, -30])
+                    case['coord'] = {'kind': 'window', 'w': [a0, b0, a1, b1, rng.randrange(2)],
+                                     'f': [rng.randrange(min(a0, a1) - 3, max(a0, a1) + 4),
+                                           rng.randrange(min(b0, b1) - 3, max(b0, b1) + 4)]}
+                case['seed'] = self.conv_seed(case)
+                bump('seed', 'via-' + case['coord']['kind'])
+            out.append(case)
             bump('mode', scr)
             bump('kind', kind)
             bump('pic', pname)
@@ -520,6 +582,10 @@ class C32(core.Check):
             vs = 'WINDOW:VIEW'
         else:
             vs = 'WINDOW:VIEW %s(%d,%d)-(%d,%d)' % ('SCREEN ' if view[4] else '', view[0], view[1], view[2], view[3])
+        co = case.get('coord')
+        if co and co['kind'] == 'window':
+            a, b, c, d, scrn = co['w']
+            vs += ':WINDOW %s(%d,%d)-(%d,%d)' % ('SCREEN ' if scrn else '', a, b, c, d)
         if case.get('fg') is not None:
             vs += ':COLOR %d' % case['fg']
         elif case['scr'] in (7, 9):
@@ -527,19 +593,82 @@ class C32(core.Check):
         return vs
 
     @staticmethod
-    def program(case):
-        st = 'PAINT (%d,%d)' % tuple(case['seed'])
-        if case['c'] is not None:
-            st += ',%d' % case['c']
-        if case['b'] is not None:
-            st += (',' if case['c'] is not None else ',,') + '%d' % case['b']
-        return '1 E=0:F=0:ON ERROR GOTO 9\r3 %s\r5 F=1:END\r9 E=ERR:RESUME 5\r' % st
+    def chrs(bs):
+        return '+'.join('CHR$(%d)' % b for b in bs) if bs else '""'
+
+    @classmethod
+    def program(cls, case):
+        co = case.get('coord')
+        if co and co['kind'] == 'step':
+            st = 'PAINT STEP (%d,%d)' % tuple(co['d'])
+        elif co and co['kind'] == 'window':
+            st = 'PAINT (%d,%d)' % tuple(co['f'])
+        else:
+            st = 'PAINT (%d,%d)' % tuple(case['seed'])
+        pre = ''
+        if case.get('tile') is not None:
+            pre = '2 T$=%s' % cls.chrs(case['tile'])
+            st += ',T$'
+            if case['b'] is not None:
+                st += ',%d' % case['b']
+            if case.get('bgp') is not None:
+                pre += ':B$=%s' % cls.chrs(case['bgp'])
+                st += (',' if case['b'] is not None else ',,') + 'B$'
+            pre += '\r'
+        else:
+            if case['c'] is not None:
+                st += ',%d' % case['c']
+            if case['b'] is not None:
+                st += (',' if case['c'] is not None else ',,') + '%d' % case['b']
+        return '1 E=0:F=0:ON ERROR GOTO 9\r%s3 %s\r5 F=1:END\r9 E=ERR:RESUME 5\r' % (pre, st)
+
+    # ---- reference conversion of STEP / WINDOW coordinates to the physical seed (independent of the model;
+    # the model takes the converted integer seed as input)
+    @staticmethod
+    def conv_seed(case):
+        co = case.get('coord')
+        if not co:
+            return list(case['seed'])
+        view = case['view']
+        sw, sh, _ = MODES[case['scr']]
+        if view is None:
+            vw, vh, ox, oy = sw, sh, 0, 0
+        else:
+            x0, y0, x1, y1, absolute = view
+            vw, vh = x1 - x0 + 1, y1 - y0 + 1
+            ox, oy = (x0, y0) if absolute else (0, 0)
+        if co['kind'] == 'step':
+            # last point after VIEW / WINDOW: the middle of the viewport (+1 as GW-BASIC does)
+            mx, my = (vw - 1) // 2 + 1 + ox, (vh - 1) // 2 + 1 + oy
+            return [mx + co['d'][0], my + co['d'][1]]
+        fx0, fy0, fx1, fy1, scrn = co['w']
+        if fy0 > fy1:
+            fy0, fy1 = fy1, fy0
+        if fx0 > fx1:
+            fx0, fx1 = fx1, fx0
+        if not scrn:
+            fy0, fy1 = fy1, fy0
+        scalex = (vw - 1 - 0.) / (fx1 - fx0)
+        scaley = (vh - 1 - 0.) / (fy1 - fy0)
+        offx = 0. - fx0 * scalex
+        offy = 0. - fy0 * scaley
+        fx, fy = co['f']
+        return [int(round(offx + (0. + fx) * scalex)), int(round(offy + (0. + fy) * scaley))]
+
+    def tile_rows(self, case):
+        """unpacked tile and background row as the mode's build_tile returns them (taken as given)"""
+        bt = self.session(case['scr'])._impl.display.mode.build_tile
+        tile = [list(r) for r in bt(bytearray(case['tile'])).to_rows()]
+        bg = None
+        if case.get('bgp'):
+            bg = list(bt(bytearray(case['bgp'])).to_rows()[0])
+        return tile, bg
 
     def run_paint(self, case):
         """returns (err, before_rect_rows, after_rect_rows, number of changed pixels outside the rectangle)"""
         scr = case['scr']
         s = self.session(scr)
-        with core.time_limit(60):
+        with core.time_limit(4 if case.get('tile') is not None else 60):
             s.execute('NEW')
             if scr == 0:
                 s.execute(self.program(case))
@@ -584,7 +713,12 @@ class C32(core.Check):
         if case.get('kind') == 'full':
             e, after = self.run_full(case)
             return [1, e, 0] if e else [0, self.digest(after), 0]
-        e, before, after, outside = self.run_paint(case)
+        try:
+            e, before, after, outside = self.run_paint(case)
+        except TimeoutError:
+            # PAINT did not return: drop the session, report like the model's OutOfFuel
+            type(self)._sessions.pop(case['scr'], None)
+            return [3, 0]
         if e:
             return [1, e, outside]
         return [0] + [a for row in after for a in row] + [outside]
@@ -621,9 +755,16 @@ class C32(core.Check):
                                               z(case['seed'][0]), z(case['seed'][1]), opt(case['c']), opt(case['b'])))
         (bx0, by0, bx1, by1), (ox, oy) = self.geometry(case)
         rows = '[' + ';'.join(core.zl(r) for r in case['rows']) + ']'
+        seed = self.conv_seed(case)
+        if case.get('tile') is not None:
+            tile, bg = self.tile_rows(case)
+            return ('(enc_paint (paint_tile false %d %d (mkBounds %s %s %s %s) (mkBitmap %s %s %s) %s %s %s %s %s) ++ [0])'
+                    % (na, fg, z(bx0), z(by0), z(bx1), z(by1), z(ox), z(oy), rows, z(seed[0]), z(seed[1]),
+                       '[' + ';'.join(core.zl(r) for r in tile) + ']', opt(case['b']),
+                       'None' if bg is None else '(Some %s)' % core.zl(bg)))
         return ('(enc_paint (paint false %d %d (mkBounds %s %s %s %s) (mkBitmap %s %s %s) %s %s %s %s) ++ [0])' % (
             na, fg, z(bx0), z(by0), z(bx1), z(by1), z(ox), z(oy), rows,
-            z(case['seed'][0]), z(case['seed'][1]), opt(case['c']), opt(case['b'])))
+            z(seed[0]), z(seed[1]), opt(case['c']), opt(case['b'])))
 
     # ---------------------------------------------------------------- oracle
     def oracle(self, case, out):
@@ -635,6 +776,8 @@ class C32(core.Check):
             return self.oracle_full(case, out)
         rows = case['rows']
         rh, rw = len(rows), len(rows[0])
+        if out[0] == 3:
+            return 'PAINT did not terminate'
         if out[0] != 0:
             # an error must not paint anything; the errors themselves are compared with the model, the property
             # does not speak about them
@@ -644,18 +787,32 @@ class C32(core.Check):
             return 'malformed output'
         rx, ry = case['rect']
         view = case['view']
-        # work in absolute screen coordinates
+        sd = self.conv_seed(case)
+        # work in absolute screen coordinates; (vx, vy) = origin of the viewport coordinates
         if view is None:
             bounds = (0, 0, sw - 1, sh - 1)
-            seed = tuple(case['seed'])
+            seed = tuple(sd)
+            vx, vy = 0, 0
         else:
             x0, y0, x1, y1, absolute = view
             bounds = (x0, y0, x1, y1)
-            seed = tuple(case['seed']) if absolute else (case['seed'][0] + x0, case['seed'][1] + y0)
+            seed = tuple(sd) if absolute else (sd[0] + x0, sd[1] + y0)
+            vx, vy = (0, 0) if absolute else (x0, y0)
         fg = case['fg'] if case.get('fg') is not None else DEFAULT_FG[scr]
         c, b = case['c'], case['b']
-        fill = ref_attr(na, fg, -1 if c is None else c)
-        border = ref_attr(na, fg, (-1 if c is None else c) if b is None else b)
+        tiled = case.get('tile') is not None
+        if tiled:
+            tile, bg = self.tile_rows(case)
+            th, tw = len(tile), len(tile[0])
+            border = ref_attr(na, fg, -1 if b is None else b)
+            want = lambda x, y: tile[(y - vy) % th][(x - vx) % tw]      # tile phase: viewport coordinates
+            # completeness is claimed only when "the run shows the tile" is the whole stop condition
+            plain = bg is None and all(any(r) for r in tile)
+        else:
+            fill = ref_attr(na, fg, -1 if c is None else c)
+            border = ref_attr(na, fg, (-1 if c is None else c) if b is None else b)
+            want = lambda x, y: fill
+            plain = True
 
         def before(x, y):
             if rx <= x < rx + rw and ry <= y < ry + rh:
@@ -666,20 +823,39 @@ class C32(core.Check):
             return 'generator error: region leaves the compared rectangle'
         if out[-1] != 0:
             return '%d pixels outside the compared rectangle (hence outside the region) changed' % out[-1]
-        prefilled = any(before(x, y) == fill for x, y in region)
+        prefilled = any(before(x, y) == want(x, y) for x, y in region)
         for j in range(rh):
             for i in range(rw):
                 a0, a1 = rows[j][i], after[j * rw + i]
-                inreg = (rx + i, ry + j) in region
+                x, y = rx + i, ry + j
+                inreg = (x, y) in region
                 if a1 != a0:
                     if not inreg:
-                        return 'pixel (%d,%d) outside the region changed %d -> %d' % (rx + i, ry + j, a0, a1)
-                    if a1 != fill:
-                        return 'pixel (%d,%d) changed to %d, not to the fill attribute %d' % (rx + i, ry + j, a1, fill)
-                if inreg and not prefilled and a1 != fill:
-                    return 'region pixel (%d,%d) not filled (region has no pixel in the fill attribute)' % (
-                        rx + i, ry + j)
+                        return 'pixel (%d,%d) outside the region changed %d -> %d' % (x, y, a0, a1)
+                    if a1 != want(x, y):
+                        return 'pixel (%d,%d) changed to %d, not to the fill/tile attribute %d' % (x, y, a1, want(x, y))
+                if inreg and plain and not prefilled and a1 != want(x, y):
+                    return 'region pixel (%d,%d) not filled (no region pixel showed the fill/tile beforehand)' % (x, y)
         return None
+
+    # ---------------------------------------------------------------- known finding K32a
+    @staticmethod
+    def zero_rows_adjacent(tile):
+        z = [not any(r) for r in tile]
+        return any(z[i] and z[(i + 1) % len(z)] for i in range(len(z)))
+
+    def known_match(self, finding, case, out):
+        if finding.get('id') != 'K32a' or out is None or out[0] != 3 or case.get('tile') is None:
+            return False
+        tile, bg = self.tile_rows(case)
+        return self.zero_rows_adjacent(tile)
+
+    def known_rerun(self, finding):
+        if finding.get('id') != 'K32a':
+            return True
+        case = dict(finding['witness'])
+        out = self.impl(case)
+        return out[0] == 3
 
     def oracle_full(self, case, out):
         if out[0] != 0:
